@@ -168,7 +168,7 @@ bool check_manifest_replay(const string &dir, const std::vector<SstFile> &files,
   ref::VersionState st;
   string err, mname;
   if (!decode_manifest(dir, &st, &err, &mname)) { violation("C17", "manifest_decode", "%s: %s", why, err.c_str()); return false; }
-  static const char *names[] = {"leveldb.BytewiseComparator", "sim.Reverse", "sim.LengthFirst"};
+  static const char *names[] = {"leveldb.BytewiseComparator", "sim.Reverse", "sim.LengthFirst", "sim.CaseInsensitive"};
   if (st.cmp != names[cmp_type]) violation("C17", "comparator_name", "%s: MANIFEST records comparator '%s', database uses '%s'", why, st.cmp.c_str(), names[cmp_type]);
   size_t nfiles = 0;
   for (int l = 0; l < 7; l++) nfiles += st.files[l].size();
